@@ -4,7 +4,7 @@ usage: reseed.py [name ...]   (default: all).  The patch is applied to /repo and
 import json, os, subprocess, sys, time
 V = os.path.dirname(os.path.dirname(os.path.abspath(__file__)))
 REPO = os.environ.get('VERIF_DEV_REPO') or '/repo'
-names = sys.argv[1:] or sorted(os.listdir(os.path.join(V, 'seeded')))
+names = sys.argv[1:] or sorted(n for n in os.listdir(os.path.join(V, 'seeded')) if os.path.exists(os.path.join(V, 'seeded', n, 'meta.json')))
 for name in names:
     d = os.path.join(V, 'seeded', name)
     meta = json.load(open(os.path.join(d, 'meta.json')))
